@@ -10,7 +10,8 @@ anything else is a VIOLATION.
 governance transactions (node_manager / side_chain_manager / relayer_manager methods that range over Go maps) — is
 executed k times on two ledgers with the same history (fresh stores), and ExecuteResult (write set, digest, cross
 hashes, cross root, events, state root) must be identical; the scripted part is also compared with the Lean model.
-Stream `clock`: the same ETH SyncBlockHeader transaction on the same state, 3 s apart, rejected then accepted (concrete
+Thorough tier additionally validates the translator by coverage: every contract function executed by the streams must be
+in the translator's reachable set. Stream `clock`: the same ETH SyncBlockHeader transaction on the same state, 3 s apart, rejected then accepted (concrete
 input for the known finding of that site).
 """
 import json
@@ -19,7 +20,7 @@ import os
 
 def generate(ctx):
     side = os.path.join(ctx.tmpdir, "callgraph.json")
-    out = ctx.run_extract("callgraph", ["lean", side], out_lean="CallGraph.lean", timeout=1800)
+    out = ctx.run_extract("callgraph", ["lean", side, "functions"], out_lean="CallGraph.lean", timeout=1800)
     if out is None:
         return None
     try:
@@ -75,9 +76,69 @@ def run(ctx):
         ctx.judge(res)
     reach = static_part(ctx, facts) if facts else []
     dynamic_part(ctx, hbin)
+    if facts and ctx.thorough():
+        coverage_crosscheck(ctx, facts)
     # the Lean obligations fail exactly when the reachable sites differ from knownSites; the concrete sites are
     # reported above, so the theorem failure itself is only reported when nothing concrete explains it
     ctx.judge_lean()
+
+
+def coverage_crosscheck(ctx, facts):
+    """Validates the translator dynamically (thorough tier): the harness is rebuilt with coverage instrumentation of the
+    native packages, the witness and determ streams are run, and every function of native/service that was executed must be
+    in the translator's reachable set (or be reachable from package initialisers only, or be called by the harness itself:
+    parameter serialisers and verif hooks). A miss means the call graph lacks an edge."""
+    import collections
+    import re
+    import vcheck
+    if not ctx.gen_gomod():
+        return
+    hcov = os.path.join(ctx.bindir, "hnative-cover")
+    rc, out = vcheck.sh(["go", "build", "-modfile=" + os.path.join(ctx.moddir, "go.mod"), "-tags", "verif", "-cover",
+                         "-coverpkg=polyverif/cmd/hnative,github.com/polynetwork/poly/native/...", "-o", hcov, "./cmd/hnative"],
+                        cwd=vcheck.HARNESS, env=vcheck.GOENV, timeout=3600)
+    ctx.note("go build -cover cmd/hnative rc=%d" % rc)
+    if rc != 0:
+        ctx.violate("precondition:build:hnative-cover", "coverage build of the harness failed", {"kind": "precondition", "output": out[-3000:]},
+                    found_input=False)
+        return
+    covdir = os.path.join(ctx.tmpdir, "covdir")
+    os.makedirs(covdir, exist_ok=True)
+    env = dict(vcheck.GOENV)
+    env["GOCOVERDIR"] = covdir
+    env["TMPDIR"] = ctx.scratch
+    for fam in ("witness", "determ"):
+        base = os.path.join(ctx.tmpdir, "cov-" + fam)
+        rc, out = vcheck.sh([hcov, fam, "-seed", str(ctx.seed), "-tier", "quick", "-ops", base + ".ops", "-out", base + ".go",
+                             "-viol", base + ".viol", "-stats", base + ".stats"], env=env, timeout=3000)
+        ctx.note("coverage run %s rc=%d" % (fam, rc))
+    txt = os.path.join(ctx.tmpdir, "cov.txt")
+    rc, out = vcheck.sh(["go", "tool", "covdata", "textfmt", "-i=" + covdir, "-o=" + txt], env=vcheck.GOENV, timeout=600)
+    if rc != 0 or not os.path.exists(txt):
+        ctx.violate("precondition:covdata", "go tool covdata failed: " + out[-500:], {"kind": "precondition"}, found_input=False)
+        return
+    byfile = collections.defaultdict(list)
+    for f in facts.get("functions") or []:
+        byfile[f["file"]].append(f)
+    executed = {}
+    for line in open(txt):
+        m = re.match(r"(.+):(\d+)\.\d+,(\d+)\.\d+ (\d+) (\d+)$", line.strip())
+        if not m or int(m.group(5)) == 0:
+            continue
+        for f in byfile.get(m.group(1), []):
+            if f["l0"] <= int(m.group(2)) <= f["l1"]:
+                executed[f["name"]] = f
+                break
+    missed = [n for n, f in executed.items() if not f["reachable"] and not f["init_reachable"]
+              and n.startswith("native/service/") and not re.search(r"Serialization$|\.Verif", n)]
+    ctx.cov["callgraph_coverage_crosscheck"] = {"executed_module_functions": len(executed),
+                                                "executed_contract_functions": len([n for n in executed if n.startswith("native/service/")]),
+                                                "missed": missed}
+    for n in missed:
+        ctx.violate("translator:callgraph-missed-function:%s" % n,
+                    "function %s was executed during the native streams but is not in the call graph's reachable set: the graph "
+                    "lacks an edge, the closure theorem is about an incomplete graph" % n,
+                    {"kind": "translator", "function": executed[n]}, found_input=False)
 
 
 def dynamic_part(ctx, hbin):
